@@ -138,3 +138,114 @@ pub fn decode_file_ok(data: &[u8]) -> bool {
         true
     }
 }
+
+/// Animated WebP via libwebp's WebPAnimEncoder: frames are RGBA canvases; the encoder emits sub-canvas frames for
+/// the changed rectangle.  `lossless`: per-frame codec; `metadata`: adds ICCP/EXIF/XMP through the mux API.
+pub fn encode_animation(frames: &[Vec<u8>], w: u32, h: u32, lossless: bool, allow_mixed: bool, minimize: bool, metadata: bool) -> Option<Vec<u8>> {
+    use libwebp_sys::*;
+    unsafe {
+        let mut opts: WebPAnimEncoderOptions = std::mem::zeroed();
+        if WebPAnimEncoderOptionsInitInternal(&mut opts, WEBP_MUX_ABI_VERSION as c_int) == 0 {
+            return None;
+        }
+        opts.allow_mixed = allow_mixed as c_int;
+        opts.minimize_size = minimize as c_int;
+        let enc = WebPAnimEncoderNewInternal(w as c_int, h as c_int, &opts, WEBP_MUX_ABI_VERSION as c_int);
+        if enc.is_null() {
+            return None;
+        }
+        let mut config = WebPConfig::new().ok()?;
+        config.lossless = lossless as c_int;
+        config.method = 1;
+        config.quality = 60.0;
+        let mut ts = 0;
+        let mut ok = true;
+        for f in frames {
+            let mut pic = WebPPicture::new().ok()?;
+            pic.use_argb = 1;
+            pic.width = w as c_int;
+            pic.height = h as c_int;
+            if WebPPictureImportRGBA(&mut pic, f.as_ptr(), (w * 4) as c_int) == 0 {
+                ok = false;
+            } else if WebPAnimEncoderAdd(enc, &mut pic, ts, &config) == 0 {
+                ok = false;
+            }
+            WebPPictureFree(&mut pic);
+            ts += 40;
+            if !ok {
+                break;
+            }
+        }
+        let mut out = None;
+        if ok && WebPAnimEncoderAdd(enc, std::ptr::null_mut(), ts, std::ptr::null()) != 0 {
+            let mut data: WebPData = std::mem::zeroed();
+            if WebPAnimEncoderAssemble(enc, &mut data) != 0 {
+                let mut bytes = std::slice::from_raw_parts(data.bytes, data.size).to_vec();
+                if metadata {
+                    bytes = add_metadata(&bytes).unwrap_or(bytes);
+                }
+                out = Some(bytes);
+                WebPFree(data.bytes as *mut std::ffi::c_void);
+            }
+        }
+        WebPAnimEncoderDelete(enc);
+        out
+    }
+}
+
+/// add ICCP / EXIF / XMP chunks to a WebP file through libwebp's mux API
+pub fn add_metadata(file: &[u8]) -> Option<Vec<u8>> {
+    use libwebp_sys::*;
+    unsafe {
+        let input = WebPData { bytes: file.as_ptr(), size: file.len() };
+        let mux = WebPMuxCreateInternal(&input, 1, WEBP_MUX_ABI_VERSION as c_int);
+        if mux.is_null() {
+            return None;
+        }
+        for (fourcc, payload) in [(b"ICCP\0", &b"fake icc profile"[..]), (b"EXIF\0", &b"Exif\0\0II*\0"[..]), (b"XMP \0", &b"<x:xmpmeta/>"[..])] {
+            let d = WebPData { bytes: payload.as_ptr(), size: payload.len() };
+            WebPMuxSetChunk(mux, fourcc.as_ptr() as *const std::os::raw::c_char, &d, 1);
+        }
+        let mut outd: WebPData = std::mem::zeroed();
+        let r = WebPMuxAssemble(mux, &mut outd);
+        let out = if r == WebPMuxError::WEBP_MUX_OK { Some(std::slice::from_raw_parts(outd.bytes, outd.size).to_vec()) } else { None };
+        if !outd.bytes.is_null() {
+            WebPFree(outd.bytes as *mut std::ffi::c_void);
+        }
+        WebPMuxDelete(mux);
+        out
+    }
+}
+
+/// whole-file verdict of libwebp for an animation: demux + decode every frame
+pub fn decode_animation_ok(file: &[u8]) -> bool {
+    use libwebp_sys::*;
+    unsafe {
+        let data = WebPData { bytes: file.as_ptr(), size: file.len() };
+        let dmx = WebPDemuxInternal(&data, 0, std::ptr::null_mut(), WEBP_DEMUX_ABI_VERSION as c_int);
+        if dmx.is_null() {
+            return false;
+        }
+        let mut it: WebPIterator = std::mem::zeroed();
+        let mut ok = true;
+        if WebPDemuxGetFrame(dmx, 1, &mut it) != 0 {
+            loop {
+                let (mut w, mut h) = (0, 0);
+                let p = WebPDecodeRGBA(it.fragment.bytes, it.fragment.size, &mut w, &mut h);
+                if p.is_null() {
+                    ok = false;
+                } else {
+                    WebPFree(p as *mut std::ffi::c_void);
+                }
+                if WebPDemuxNextFrame(&mut it) == 0 {
+                    break;
+                }
+            }
+            WebPDemuxReleaseIterator(&mut it);
+        } else {
+            ok = false;
+        }
+        WebPDemuxDelete(dmx);
+        ok
+    }
+}
